@@ -374,6 +374,92 @@ func TestC11Race(t *testing.T) {
 		cl.Destroy()
 		fmt.Printf("C11-STATS expired-session-after-outage ok=%d failed=%d\n", okN, failN)
 	})
+	// S7: cached service tickets have ended but are renewable (the KDC honours them within its clock skew):
+	// several goroutines ask for them at once, each call that renews returns the renewed ticket with ITS key
+	c11Watchdog("renew-ended-service-tickets", 30*time.Second, func() {
+		sim := newKDCSim(simPolicy{maxLife: 1500 * time.Millisecond, maxRenew: time.Hour, sessionEt: 18, grace: 5 * time.Minute}, 24*time.Hour, NewRNG(9))
+		defer sim.close()
+		cfg, err := config.NewFromString(sim.conf(" ticket_lifetime = 24h\n renew_lifetime = 72h\n"))
+		if err != nil {
+			t.Fatal(err)
+		}
+		cl := client.NewWithPassword(c09User, "TEST.GOKRB5", clientPassword, cfg, client.DisablePAFXFAST(true))
+		if err := cl.Login(); err != nil {
+			fmt.Printf("C11-NOTE login failed: %v\n", err)
+		}
+		for round := 0; round < 2; round++ {
+			for _, spn := range spns[:3] {
+				cl.GetServiceTicket(spn)
+			}
+			time.Sleep(1600 * time.Millisecond)
+			var wg sync.WaitGroup
+			var okN, badN int64
+			for g := 0; g < 6; g++ {
+				wg.Add(1)
+				go func(g int) {
+					defer wg.Done()
+					for i := 0; i < 4; i++ {
+						spn := spns[(g+i)%3]
+						tkt, key, err := cl.GetServiceTicket(spn)
+						if err != nil {
+							continue
+						}
+						var id int
+						fmt.Sscanf(string(tkt.EncPart.Cipher), "TKT:%d", &id)
+						sim.mu.Lock()
+						ok := id >= 1 && id <= len(sim.tickets) && X(sim.tickets[id-1].key.KeyValue) == X(key.KeyValue) && strings.Join(sim.tickets[id-1].sname, "/") == spn
+						sim.mu.Unlock()
+						if ok {
+							atomic.AddInt64(&okN, 1)
+						} else {
+							atomic.AddInt64(&badN, 1)
+							fmt.Printf("C11-PAIR-MISMATCH spn=%s ticket=%d (a ticket renewed after its end)\n", spn, id)
+						}
+					}
+				}(g)
+			}
+			wg.Wait()
+			fmt.Printf("C11-STATS renew-ended-service-tickets round=%d ok=%d mismatched=%d\n", round, okN, badN)
+		}
+		cl.Destroy()
+	})
+	// S6: Destroy is called while the auto-renewal goroutine of the TGT session is in the middle of a renewal (its
+	// request is with a slow KDC): Destroy returns, and so does everything else, whatever the renewal does next
+	for _, at := range []time.Duration{5 * time.Millisecond, 300 * time.Millisecond} {
+		name := fmt.Sprintf("destroy-during-auto-renewal/after=%v", at)
+		c11Watchdog(name, 20*time.Second, func() {
+			sim := newKDCSim(simPolicy{maxLife: 2 * time.Second, maxRenew: time.Hour, sessionEt: 18}, 24*time.Hour, NewRNG(8))
+			defer sim.close()
+			cfg, err := config.NewFromString(sim.conf(" ticket_lifetime = 24h\n renew_lifetime = 72h\n"))
+			if err != nil {
+				t.Fatal(err)
+			}
+			cl := client.NewWithPassword(c09User, "TEST.GOKRB5", clientPassword, cfg, client.DisablePAFXFAST(true))
+			if err := cl.Login(); err != nil {
+				fmt.Printf("C11-NOTE login failed: %v\n", err)
+			}
+			atomic.StoreInt64(&sim.slowNs, int64(700*time.Millisecond))
+			// wait for the auto-renewal's request (the timer fires at 5/6 of what is left of 1..2 s) to reach the KDC,
+			// which sits on its answer for 700 ms
+			seen := atomic.LoadInt64(&sim.arrived)
+			for i := 0; i < 1000 && atomic.LoadInt64(&sim.arrived) == seen; i++ {
+				time.Sleep(3 * time.Millisecond)
+			}
+			if atomic.LoadInt64(&sim.arrived) == seen {
+				fmt.Printf("C11-NOTE %s: no renewal request seen\n", name)
+			}
+			time.Sleep(at)
+			var wg sync.WaitGroup
+			wg.Add(2)
+			go func() { defer wg.Done(); cl.Destroy() }()
+			go func() { defer wg.Done(); time.Sleep(50 * time.Millisecond); cl.Print(io.Discard); cl.IsConfigured() }()
+			wg.Wait()
+			atomic.StoreInt64(&sim.slowNs, 0)
+			time.Sleep(900 * time.Millisecond) // the renewal's answer arrives at a destroyed client
+			cl.Print(io.Discard)
+			cl.Destroy()
+		})
+	}
 	// S2: one configuration shared by goroutines resolving servers and realms, and by two clients
 	c11Watchdog("shared-config", 60*time.Second, func() {
 		sim := newKDCSim(simPolicy{maxLife: time.Hour, sessionEt: 18}, 24*time.Hour, rng)
@@ -381,11 +467,20 @@ func TestC11Race(t *testing.T) {
 		conf := sim.conf(" ticket_lifetime = 24h\n")
 		conf = strings.Replace(conf, "[domain_realm]", " TWICE.KDCS = {\n  kdc = k1.twice:88\n  kdc = k2.twice:88\n  kdc = k1.twice:88\n  kpasswd_server = p1.twice:464\n  kpasswd_server = p1.twice:464\n }\n[domain_realm]", 1)
 		conf = strings.Replace(conf, "[domain_realm]", " MANY.KDCS = {\n  kdc = k1.many:88\n  kdc = k2.many:88\n  kdc = k3.many:88\n  kdc = k4.many:88\n  kpasswd_server = p1.many:464\n  kpasswd_server = p2.many:464\n }\n[domain_realm]", 1)
+		// a realm with two stanzas: three servers in the first (a list the parser grew by appending has room for a
+		// fourth), one in the second
+		conf = strings.Replace(conf, "[domain_realm]", " STANZA.TWICE = {\n  kdc = k1a.st:88\n  kdc = k2a.st:88\n  kdc = k3a.st:88\n }\n STANZA.TWICE = {\n  kdc = k1b.st:88\n }\n[domain_realm]", 1)
+		stanzaAll := map[string]bool{"k1a.st:88": true, "k2a.st:88": true, "k3a.st:88": true, "k1b.st:88": true}
 		cfg, err := config.NewFromString(conf)
 		if err != nil {
 			t.Fatal(err)
 		}
+		stanzaFirst := ""
 		var wg sync.WaitGroup
+		{
+			_, m, _ := cfg.GetKDCs("STANZA.TWICE", true)
+			stanzaFirst = sortedVals(m)
+		}
 		for g := 0; g < 8; g++ {
 			wg.Add(1)
 			go func(g int) {
@@ -409,6 +504,15 @@ func TestC11Race(t *testing.T) {
 						fmt.Printf("C11-KPASSWD-NOT-A-PERMUTATION %v %v %v\n", n, m, err)
 					}
 					cfg.ResolveRealm("x.other.realm")
+					// the realm with two stanzas: servers that are configured for it, the same ones at every call
+					n, m, err = cfg.GetKDCs("STANZA.TWICE", i%2 == 0)
+					okS := err == nil && n == len(m) && n > 0 && sortedVals(m) == stanzaFirst
+					for _, s := range m {
+						okS = okS && stanzaAll[s]
+					}
+					if !okS {
+						fmt.Printf("C11-KDCS-NOT-A-PERMUTATION (realm with two stanzas) %v %v %v first-call=%s\n", n, m, err, stanzaFirst)
+					}
 				}
 			}(g)
 		}
@@ -426,6 +530,15 @@ func TestC11Race(t *testing.T) {
 		}
 		wg.Wait()
 	})
+}
+
+func sortedVals(m map[int]string) string {
+	var l []string
+	for _, s := range m {
+		l = append(l, s)
+	}
+	sort.Strings(l)
+	return strings.Join(l, ",")
 }
 
 func isPerm(m map[int]string, want []string) bool {
